@@ -273,12 +273,20 @@ var _ = board.White
 // concurrentHalf runs the interleaving explorer built with function-entry yields (two engines
 // side by side) and merges what it covered into this check's evidence.
 func concurrentHalf(c *harness.Check) {
-	bin := os.Getenv("VERIF_MCY")
+	embedInterleavings(c, "VERIF_MCY", "mcy", "C18")
+	c.Sample(map[string]any{"interleaving_scenario": "two engines searching K v K side by side, scheduling point at every function entry", "oracle": "each engine returns what it returns alone"})
+}
+
+// embedInterleavings runs the interleaving (E2) scenarios registered for the check in the explorer
+// binary named by the environment variable and folds its statistics and confirmed violations
+// into this check's evidence.
+func embedInterleavings(c *harness.Check, binEnv, engine, id string) {
+	bin := os.Getenv(binEnv)
 	if bin == "" {
-		fmt.Fprintln(os.Stderr, "HARNESS-ERROR: VERIF_MCY is not set: the concurrent half of C18 needs the yields build (use ./run C18)")
+		fmt.Fprintf(os.Stderr, "HARNESS-ERROR: %s is not set: the interleaving half of %s needs the explorer build (use ./run %s)\n", binEnv, id, id)
 		os.Exit(2)
 	}
-	cmd := exec.Command(bin, "C18", c.Tier)
+	cmd := exec.Command(bin, id, c.Tier)
 	cmd.Env = append(os.Environ(), "VERIF_EMBED=1")
 	cmd.Stderr = os.Stderr
 	out, err := cmd.Output()
@@ -308,7 +316,7 @@ func concurrentHalf(c *harness.Check) {
 		}
 	}
 	if err != nil || !found {
-		fmt.Fprintf(os.Stderr, "HARNESS-ERROR: the interleaving half of C18 failed: %v\n%s\n", err, out)
+		fmt.Fprintf(os.Stderr, "HARNESS-ERROR: the interleaving half of %s failed: %v\n%s\n", id, err, out)
 		os.Exit(2)
 	}
 	c.States.Add(emb.Stats.Points + emb.Stats.Executions)
@@ -325,9 +333,8 @@ func concurrentHalf(c *harness.Check) {
 		c.Note("the interleaving half hit its deadline; bound completed for every scenario: %d", emb.BoundDone)
 	}
 	for i, f := range emb.Confirmed {
-		c.ViolationEngine("mcy", f.Violation, f.Msg, "mc/schedule", raw.Confirmed[i])
+		c.ViolationEngine(engine, f.Violation, f.Msg, "mc/schedule", raw.Confirmed[i])
 	}
-	c.Sample(map[string]any{"interleaving_scenario": "two engines searching K v K side by side, scheduling point at every function entry", "oracle": "each engine returns what it returns alone"})
 }
 
 // historyRoots reach a position by play that could also be set up directly: what the heuristics
